@@ -99,11 +99,12 @@ class SSCChart(BaseChart):
             raise ValueError("expected NOTEDATA property first")
 
         for param in iterator:
-            if param.key in BaseSimfile.MULTI_VALUE_PROPERTIES:
-                self[param.key] = ":".join(param.components[1:])
+            key = param.key.upper()
+            if key in BaseSimfile.MULTI_VALUE_PROPERTIES:
+                self[key] = ":".join(param.components[1:])
             else:
-                self[param.key] = param.value
-            if param.value is self.notes:
+                self[key] = param.value
+            if key in ("NOTES", "NOTES2"):
                 break
 
     def serialize(self, file):
